@@ -46,7 +46,7 @@ def replay(name, first_bad):
         return kit.concrete_replay("C17", ["hessian"])
     if name.startswith("idxs"):
         return kit.concrete_replay("C17", ["index_validation"])
-    return kit.concrete_replay("C17", ["substitution", "products"])
+    return kit.concrete_replay("C17", ["substitution", "substitution_after_non_tensor", "products"])
 
 
 def _jh():
@@ -83,14 +83,18 @@ def absfun(name, args, out_n):
     return st._taped("fn:" + name, [a for _, a in tens], r, vjp), point
 
 
-def _make_fn(kind, log):
+def _make_fn(kind, log, ypos=0):
     """returns (callable for jac, object tensors, evaluator(args)->point)"""
     import xitorch
     nout = fresh_int("nout")
     ctx().assume(nout.e >= 1)
+    def order(a):
+        # the differentiated argument is at position ypos, the non-tensor argument at the other of the first two
+        return (a[0], a[1], a[2]) if ypos == 0 else (a[1], a[0], a[2])
     if kind == "function":
-        def f(y, k, p):
-            out, pt = absfun("f", [y, k, p], nout)
+        def f(*a):
+            y, k, p = order(a)
+            out, pt = absfun("f", list(a), nout)
             log.append(dict(pt=pt, grad=st.is_grad_enabled(), args=(y, k, p), theta=None))
             return out
         return f, [], nout
@@ -100,8 +104,9 @@ def _make_fn(kind, log):
         def __init__(self):
             self.theta = theta
 
-        def f(self, y, k, p):
-            out, pt = absfun("f", [y, k, p, self.theta], nout)
+        def f(self, *a):
+            y, k, p = order(a)
+            out, pt = absfun("f", list(a) + [self.theta], nout)
             log.append(dict(pt=pt, grad=st.is_grad_enabled(), args=(y, k, p), theta=self.theta))
             return out
 
@@ -111,13 +116,14 @@ def _make_fn(kind, log):
     return obj.f, [theta], nout, obj
 
 
-def unit_products(kind):
+def unit_products(kind, ypos=0):
     jh = _jh()
+    JN = "J%d" % ypos
 
     def run():
         c = ctx()
         log = []
-        made = _make_fn(kind, log)
+        made = _make_fn(kind, log, ypos)
         f, objt, nout = made[0], made[1], made[2]
         obj = made[3] if len(made) > 3 else None
         n = fresh_int("n")
@@ -126,7 +132,7 @@ def unit_products(kind):
         p = st.vec("p", (2,), (0,), requires_grad=True)
         idx_mode = c.choose(2, "idxs_form")
         with st.no_grad():
-            J = jh.jac(f, params=(y, 7, p), idxs=(0 if idx_mode == 0 else [0]))
+            J = jh.jac(f, params=((y, 7, p) if ypos == 0 else (7, y, p)), idxs=(ypos if idx_mode == 0 else [ypos]))
         if idx_mode == 1:
             c.check("list_of_indices_gives_list_of_operators", isinstance(J, list) and len(J) == 1)
             J = J[0]
@@ -143,8 +149,8 @@ def unit_products(kind):
         with (st.enable_grad() if grad_mode else st.no_grad()):
             ju = J.mv(u)
             jtg = J.rmv(g)
-        c.prove("mv(u)_is_J_u", ju.v.eq(u.v.apply("J0@%s" % pt0)))
-        c.prove("rmv(g)_is_JT_g", jtg.v.eq(g.v.apply("J0@%s^H" % pt0)))
+        c.prove("mv(u)_is_J_u", ju.v.eq(u.v.apply(JN + "@%s" % pt0)))
+        c.prove("rmv(g)_is_JT_g", jtg.v.eq(g.v.apply(JN + "@%s^H" % pt0)))
         c.check("cached_graph_used_when_parameters_unchanged", len(log) == ncalls0)
         ag = [k for nme, k in c.calls if nme == "autograd.grad"]
         c.check("products_create_graph_follows_grad_mode", len(ag) == 2 and all(k["create_graph"] == grad_mode for k in ag))
@@ -158,11 +164,13 @@ def unit_products(kind):
         p2 = st.vec("p2", (2,), (0,), requires_grad=True)
         th2 = [st.vec("theta2", (3,), (0,), requires_grad=True) for _ in objt]
         n1 = len(log)
-        with J.uselinopparams(y2, p2, *th2):
+        with J.uselinopparams(*((y2, p2, *th2))):
             with (st.enable_grad() if grad_mode else st.no_grad()):
-                ju2 = J.mv(u)
-                jtg2 = J.rmv(g)
+                ok1, ju2 = kit.call_or_fail(c, "after_substitution_mv_is_J(new_point)_u", lambda: J.mv(u))
+                ok2, jtg2 = kit.call_or_fail(c, "after_substitution_rmv_is_JT(new_point)_g", lambda: J.rmv(g))
             evs = log[n1:]
+        if not (ok1 and ok2):
+            return
         c.check("function_reevaluated_under_substituted_parameters", len(evs) == 2 and
                 all(e["args"][0] is y2 and e["args"][1] == 7 and e["args"][2] is p2 and e["grad"] for e in evs))
         if objt:
@@ -170,8 +178,8 @@ def unit_products(kind):
             c.check("object_tensors_restored_after_the_product", obj.theta is objt[0])
         if len(evs) == 2:
             pt2 = evs[0]["pt"]
-            c.prove("after_substitution_mv_is_J(new_point)_u", ju2.v.eq(u.v.apply("J0@%s" % pt2)))
-            c.prove("after_substitution_rmv_is_JT(new_point)_g", jtg2.v.eq(g.v.apply("J0@%s^H" % evs[1]["pt"])))
+            kit.prove_vec(c, "after_substitution_mv_is_J(new_point)_u", ju2, u.v.apply(JN + "@%s" % pt2))
+            kit.prove_vec(c, "after_substitution_rmv_is_JT(new_point)_g", jtg2, g.v.apply(JN + "@%s^H" % evs[1]["pt"]))
             c.check("new_point_differs_from_construction_point", pt2 != pt0)
         lp3 = J.getlinopparams()
         c.check("linop_parameters_restored", lp3[0] is y and lp3[1] is p and all(a is b for a, b in zip(lp3[2:], objt)))
@@ -179,9 +187,9 @@ def unit_products(kind):
         with st.no_grad():
             ju3 = J.mv(u)
         c.check("cached_graph_used_again_after_restoration", len(log) == n2)
-        c.prove("after_restoration_mv_is_J(original_point)_u", ju3.v.eq(u.v.apply("J0@%s" % pt0)))
+        c.prove("after_restoration_mv_is_J(original_point)_u", ju3.v.eq(u.v.apply(JN + "@%s" % pt0)))
         c.prove("canary", z3.BoolVal(False), kind="canary")
-    return kit.run_unit("products[%s]" % kind, run)
+    return kit.run_unit("products[%s%s]" % (kind, "" if ypos == 0 else ",after_non_tensor"), run)
 
 
 def unit_idxs():
@@ -265,4 +273,6 @@ def unit_hess():
 
 def units(tier):
     return [("products[function]", lambda: unit_products("function")), ("products[EditableModule]", lambda: unit_products("em")),
+            ("products[function,after_non_tensor]", lambda: unit_products("function", 1)),
+            ("products[em,after_non_tensor]", lambda: unit_products("em", 1)),
             ("idxs", unit_idxs), ("hess", unit_hess)]
